@@ -2,281 +2,70 @@
 
 package frr
 
-// C15 harness: the scenarios of spec/FRRMC.tla are played against the real frr-k8s session manager
-// (NewSessionManager / SetEventCallback / NewSession / Set / Close / SyncBFDProfiles); the
-// FRRConfiguration handed to the config-changed callback last is marshalled to JSON (digest) and
-// projected field by field into a record TLC can read (numbers as decimal strings, prefixes in
-// lexical form, "large:" marker split off).  The projection assigns no meaning and drops nothing
-// the judge needs; one observation per (scenario, order).
+// C15 harness: the scenarios of spec/FRRMC.tla (one-shot session sets in several creation orders,
+// and histories observed after every operation) are played against the real frr-k8s session
+// manager with a DEBUG-level logger (so that the dump paths run).  The value handed to the
+// config-changed callback is KEPT AS HANDED OVER (no copy): its digest is taken inside the callback
+// and again when the operation has returned, and the projection logged is that of the second look.
+// One observation per look.  No oracle here.
 
 import (
-	"crypto/sha256"
-	"encoding/hex"
-	"encoding/json"
 	"fmt"
-	"strconv"
-	"strings"
 	"testing"
-	"time"
 
 	"github.com/go-kit/log"
 	frrv1beta1 "github.com/metallb/frr-k8s/api/v1beta1"
-	"go.universe.tf/metallb/internal/bgp"
-	metallbconfig "go.universe.tf/metallb/internal/config"
 	"go.universe.tf/metallb/internal/logging"
 	"go.universe.tf/metallb/internal/verifkit"
-	metav1 "k8s.io/apimachinery/pkg/apis/meta/v1"
 )
-
-type vFrrKV struct {
-	K string `json:"k"`
-	V string `json:"v"`
-}
-
-type vFrrCRLocalPref struct {
-	Lp       string               `json:"lp"`
-	Prefixes []verifkit.FrrPrefix `json:"prefixes"`
-}
-
-type vFrrCRCommunity struct {
-	Raw      string               `json:"raw"`
-	Large    bool                 `json:"large"`
-	C        string               `json:"c"`
-	Prefixes []verifkit.FrrPrefix `json:"prefixes"`
-}
-
-type vFrrCRNeighbor struct {
-	Address       string                `json:"address"`
-	Iface         string                `json:"iface"`
-	Asn           string                `json:"asn"`
-	Dyn           string                `json:"dyn"`
-	Srcaddr       string                `json:"srcaddr"`
-	Port          string                `json:"port"` // "" = nil
-	Password      string                `json:"password"`
-	Secret        verifkit.FrrSecretRef `json:"secret"`
-	Hold          string                `json:"hold"` // whole seconds, "" = nil
-	Keepalive     string                `json:"keepalive"`
-	Connect       string                `json:"connect"`
-	Multihop      bool                  `json:"multihop"`
-	Bfd           string                `json:"bfd"`
-	Gr            bool                  `json:"gr"`
-	Disablemp     bool                  `json:"disablemp"`
-	AllowedMode   string                `json:"allowedMode"`
-	Allowed       []verifkit.FrrPrefix  `json:"allowed"`
-	WithLocalPref []vFrrCRLocalPref     `json:"withLocalPref"`
-	WithCommunity []vFrrCRCommunity     `json:"withCommunity"`
-	ReceiveMode   string                `json:"receiveMode"`
-	NReceive      int                   `json:"nreceive"`
-	BadPrefixes   []string              `json:"badPrefixes"`
-}
-
-type vFrrCRRouter struct {
-	Asn       string               `json:"asn"`
-	ID        string               `json:"rid"`
-	Vrf       string               `json:"vrf"`
-	Prefixes  []verifkit.FrrPrefix `json:"prefixes"`
-	NImports  int                  `json:"nimports"`
-	Neighbors []vFrrCRNeighbor     `json:"neighbors"`
-}
-
-type vFrrCR struct {
-	Present     bool           `json:"present"`
-	Name        string         `json:"name"`
-	Namespace   string         `json:"namespace"`
-	MatchLabels []vFrrKV       `json:"matchLabels"`
-	NMatchExpr  int            `json:"nmatchexpr"`
-	Routers     []vFrrCRRouter `json:"routers"`
-	BfdProfiles []string       `json:"bfdProfiles"`
-	RawConfig   string         `json:"rawConfig"`
-}
-
-type vFrrK8sObs struct {
-	ID       string                `json:"id"`
-	Ord      int                   `json:"ord"`
-	Mode     string                `json:"mode"`
-	Node     string                `json:"node"`
-	Ns       string                `json:"ns"`
-	Same     int                   `json:"same"` // > 0: the marshalled resource is byte-identical to that of order Same (sessions, cr omitted)
-	Sessions []verifkit.FrrSession `json:"sessions,omitempty"`
-	Created  []bool                `json:"created"` // per session: NewSession succeeded (and not closed)
-	Errs     []string              `json:"errs"`
-	Sha      string                `json:"sha"`
-	Len      int                   `json:"len"`
-	Calls    int                   `json:"calls"`
-	CR       *vFrrCR               `json:"cr,omitempty"`
-	JSON     string                `json:"json,omitempty"`
-}
-
-func vFrrSeconds(d *metav1.Duration) string {
-	if d == nil {
-		return ""
-	}
-	if d.Duration%time.Second == 0 {
-		return strconv.FormatInt(int64(d.Duration/time.Second), 10)
-	}
-	return d.Duration.String()
-}
-
-func vFrrLexList(in []string, bad *[]string, codes bool) []verifkit.FrrPrefix {
-	out := []verifkit.FrrPrefix{}
-	for _, s := range in {
-		p, ok := verifkit.FrrLexPrefix(s)
-		if !codes {
-			p.Codes = nil
-		}
-		if !ok {
-			*bad = append(*bad, s)
-			continue
-		}
-		out = append(out, p)
-	}
-	return out
-}
-
-func vFrrProject(c *frrv1beta1.FRRConfiguration) vFrrCR {
-	cr := vFrrCR{Present: true, Name: c.Name, Namespace: c.Namespace, MatchLabels: []vFrrKV{}, Routers: []vFrrCRRouter{},
-		BfdProfiles: []string{}, RawConfig: c.Spec.Raw.Config, NMatchExpr: len(c.Spec.NodeSelector.MatchExpressions)}
-	for _, k := range verifkit.SortedKeys(c.Spec.NodeSelector.MatchLabels) {
-		cr.MatchLabels = append(cr.MatchLabels, vFrrKV{K: k, V: c.Spec.NodeSelector.MatchLabels[k]})
-	}
-	for _, b := range c.Spec.BGP.BFDProfiles {
-		cr.BfdProfiles = append(cr.BfdProfiles, b.Name)
-	}
-	for _, r := range c.Spec.BGP.Routers {
-		var bad []string
-		pr := vFrrCRRouter{Asn: strconv.FormatUint(uint64(r.ASN), 10), ID: r.ID, Vrf: r.VRF, NImports: len(r.Imports),
-			Neighbors: []vFrrCRNeighbor{}}
-		pr.Prefixes = vFrrLexList(r.Prefixes, &bad, false)
-		for _, n := range r.Neighbors {
-			pn := vFrrCRNeighbor{Address: n.Address, Iface: n.Interface, Asn: strconv.FormatUint(uint64(n.ASN), 10),
-				Dyn: string(n.DynamicASN), Srcaddr: n.SourceAddress, Password: n.Password,
-				Secret: verifkit.FrrSecretRef{Name: n.PasswordSecret.Name, Ns: n.PasswordSecret.Namespace},
-				Hold:   vFrrSeconds(n.HoldTime), Keepalive: vFrrSeconds(n.KeepaliveTime), Connect: vFrrSeconds(n.ConnectTime),
-				Multihop: n.EBGPMultiHop, Bfd: n.BFDProfile, Gr: n.EnableGracefulRestart, Disablemp: n.DisableMP,
-				AllowedMode: string(n.ToAdvertise.Allowed.Mode), WithLocalPref: []vFrrCRLocalPref{}, WithCommunity: []vFrrCRCommunity{},
-				ReceiveMode: string(n.ToReceive.Allowed.Mode), NReceive: len(n.ToReceive.Allowed.Prefixes), BadPrefixes: []string{}}
-			if n.Port != nil {
-				pn.Port = strconv.FormatUint(uint64(*n.Port), 10)
-			}
-			pn.Allowed = vFrrLexList(n.ToAdvertise.Allowed.Prefixes, &pn.BadPrefixes, true)
-			for _, lp := range n.ToAdvertise.PrefixesWithLocalPref {
-				pn.WithLocalPref = append(pn.WithLocalPref, vFrrCRLocalPref{Lp: strconv.FormatUint(uint64(lp.LocalPref), 10),
-					Prefixes: vFrrLexList(lp.Prefixes, &pn.BadPrefixes, false)})
-			}
-			for _, cp := range n.ToAdvertise.PrefixesWithCommunity {
-				e := vFrrCRCommunity{Raw: cp.Community, C: cp.Community, Prefixes: vFrrLexList(cp.Prefixes, &pn.BadPrefixes, false)}
-				if strings.HasPrefix(cp.Community, "large:") {
-					e.Large, e.C = true, strings.TrimPrefix(cp.Community, "large:")
-				}
-				pn.WithCommunity = append(pn.WithCommunity, e)
-			}
-			pn.BadPrefixes = append(pn.BadPrefixes, bad...)
-			pr.Neighbors = append(pr.Neighbors, pn)
-		}
-		cr.Routers = append(cr.Routers, pr)
-	}
-	return cr
-}
-
-func vFrrK8sPlay(sc verifkit.FrrScenario, ops []verifkit.FrrOp, o *vFrrK8sObs) {
-	l := log.NewNopLogger()
-	sm := NewSessionManager(l, logging.LevelInfo, sc.Node, sc.Ns)
-	var last *frrv1beta1.FRRConfiguration
-	sm.SetEventCallback(func(v interface{}) {
-		o.Calls++
-		c, ok := v.(frrv1beta1.FRRConfiguration)
-		if !ok {
-			o.Errs = append(o.Errs, fmt.Sprintf("callback got %T", v))
-			return
-		}
-		last = c.DeepCopy()
-	})
-	profiles := map[string]*metallbconfig.BFDProfile{}
-	for _, s := range sc.Sessions {
-		if s.Bfd != "" {
-			profiles[s.Bfd] = &metallbconfig.BFDProfile{Name: s.Bfd}
-		}
-	}
-	if len(profiles) > 0 {
-		if err := sm.SyncBFDProfiles(profiles); err != nil {
-			o.Errs = append(o.Errs, "bfd: "+err.Error())
-		}
-	}
-	live := map[int]bgp.Session{}
-	for _, op := range ops {
-		s := sc.Sessions[op.S-1]
-		switch op.Op {
-		case "new":
-			sess, err := sm.NewSession(l, verifkit.FrrParams(s, sc.Node))
-			if err != nil {
-				o.Errs = append(o.Errs, fmt.Sprintf("new %s: %v", s.K, err))
-				continue
-			}
-			live[op.S] = sess
-		case "set", "preset":
-			sess, ok := live[op.S]
-			if !ok {
-				o.Errs = append(o.Errs, fmt.Sprintf("%s %s: no session", op.Op, s.K))
-				continue
-			}
-			advs := verifkit.FrrAdvs(s.Advs, op.Advs)
-			if op.Op == "preset" {
-				advs = verifkit.FrrAdvs(s.Pre, verifkit.FrrAllIdx(len(s.Pre)))
-			}
-			if err := sess.Set(advs...); err != nil {
-				o.Errs = append(o.Errs, fmt.Sprintf("%s %s: %v", op.Op, s.K, err))
-			}
-		case "close":
-			if sess, ok := live[op.S]; ok {
-				if err := sess.Close(); err != nil {
-					o.Errs = append(o.Errs, fmt.Sprintf("close %s: %v", s.K, err))
-				}
-				delete(live, op.S)
-			}
-		default:
-			panic("unknown op " + op.Op)
-		}
-	}
-	for i := range sc.Sessions {
-		_, ok := live[i+1]
-		o.Created = append(o.Created, ok)
-	}
-	if last == nil {
-		o.CR = &vFrrCR{MatchLabels: []vFrrKV{}, Routers: []vFrrCRRouter{}, BfdProfiles: []string{}}
-		return
-	}
-	raw, err := json.Marshal(last)
-	if err != nil {
-		o.Errs = append(o.Errs, "marshal: "+err.Error())
-	}
-	sum := sha256.Sum256(raw)
-	o.Sha, o.Len = hex.EncodeToString(sum[:]), len(raw)
-	cr := vFrrProject(last)
-	o.CR = &cr
-	o.JSON = string(raw)
-}
 
 func TestVerifFrrcfgK8s(t *testing.T) {
 	scs := verifkit.FrrReadScenarios()
 	out := verifkit.NewObsWriter()
 	defer out.Close()
 	withText := verifkit.FrrWithText()
+	l := log.NewNopLogger()
 	verifkit.FrrForEach(scs, out, func(sc verifkit.FrrScenario, b *verifkit.Block) {
 		first := map[string]int{}
+		seq := 0
 		for k, ops := range sc.Orders {
-			o := vFrrK8sObs{ID: sc.ID, Ord: k + 1, Mode: "k8s", Node: sc.Node, Ns: sc.Ns, Sessions: sc.Sessions,
-				Created: []bool{}, Errs: []string{}}
-			vFrrK8sPlay(sc, ops, &o)
-			key := o.Sha + "|" + o.JSON
-			if f, ok := first[key]; ok {
-				o.Same, o.Sessions, o.CR = f, nil, nil // compression only: the driver copies them from that line
-			} else {
-				first[key] = k + 1
-			}
-			if !withText || o.Same > 0 {
-				o.JSON = ""
-			}
-			b.Add(o)
+			sm := NewSessionManager(l, logging.LevelDebug, sc.Node, sc.Ns)
+			var handed *frrv1beta1.FRRConfiguration // the value of the last callback, as handed over
+			sha0, calls := "", 0
+			var cbErrs []string
+			sm.SetEventCallback(func(v interface{}) {
+				calls++
+				c, ok := v.(frrv1beta1.FRRConfiguration)
+				if !ok {
+					cbErrs = append(cbErrs, fmt.Sprintf("callback got %T", v))
+					return
+				}
+				handed = &c // shares every slice with what the session manager goes on using
+				sha0, _, _ = verifkit.FrrCRDigest(handed)
+			})
+			verifkit.FrrRun(sm, l, sc, ops, func(lk verifkit.FrrLook) {
+				seq++
+				o := verifkit.FrrK8sObs{ID: sc.ID, Ord: k + 1, Step: lk.Step, Seq: seq, Mode: "k8s", Path: "callback", Node: sc.Node,
+					Ns: sc.Ns, Sessions: lk.Sessions, Created: lk.Created, Errs: append(lk.Errs, cbErrs...), Refusals: lk.Refusals,
+					RefusedOK: lk.RefusedOK, Calls: calls, Sha0: sha0}
+				if handed == nil {
+					o.CR = verifkit.FrrEmptyCR()
+				} else {
+					o.Sha, o.Len, o.JSON = verifkit.FrrCRDigest(handed)
+					cr := verifkit.FrrProjectCR(handed)
+					o.CR = &cr
+				}
+				key := verifkit.FrrSameKey(o.Sha0+"|"+o.Sha+"|"+o.JSON, o.Sessions)
+				if f, ok := first[key]; ok {
+					o.Same, o.Sessions, o.CR = f, nil, nil // compression only: the driver copies them from that observation
+				} else {
+					first[key] = seq
+				}
+				if !withText || o.Same > 0 {
+					o.JSON = ""
+				}
+				b.Add(o)
+			})
 		}
 	})
 	t.Logf("verif: %d scenarios, %d observations", len(scs), out.N)
